@@ -269,6 +269,8 @@ func (ex *Explorer) runPath(solver *Solver, prefix []dec) {
 	case "cap":
 		st.CapHit++
 		ex.Unsupp[msg]++
+	case "deadlock":
+		st.Panicked++
 	}
 	if len(ex.Samples) < 3 && status == "ok" && len(p.trace) > 0 {
 		ex.Samples = append(ex.Samples, fmt.Sprintf("path choices=%v decisions=%s pc=[%s]",
